@@ -492,14 +492,15 @@ pub fn c01(c: &Collector, g: &mut Guard) {
             extra: json!({}),
         });
     }
-    let wide: Vec<P> = {
+    let wide_small: Vec<P> = {
         let mut v: Vec<P> = vec![None];
-        if thorough {
-            v.extend((0..=9999).map(Some));
-        } else {
-            v.extend((0..=64).map(Some));
-            v.extend([80, 81, 131, 132, 133, 255, 256, 1000, 4999, 9998, 9999].iter().map(|x| Some(*x)));
-        }
+        v.extend((0..=64).map(Some));
+        v.extend([80, 81, 131, 132, 133, 255, 256, 1000, 4999, 9998, 9999].iter().map(|x| Some(*x)));
+        v
+    };
+    let wide_full: Vec<P> = {
+        let mut v: Vec<P> = vec![None];
+        v.extend((0..=9999).map(Some));
         v
     };
     let wb: Vec<Base> = bases.iter().step_by(if thorough { 3 } else { 5 }).cloned().collect();
@@ -507,9 +508,12 @@ pub fn c01(c: &Collector, g: &mut Guard) {
     sweep(
         c,
         &wb,
-        |_| {
+        |b| {
             let mut v = Vec::new();
-            for p in &wide {
+            // the complete domain {absent} U 0..=9999 on the small geometries (thorough); the large
+            // screens cost about 50x more per transition and get the boundary-value domain
+            let wide = if thorough && b.columns <= 5 { &wide_full } else { &wide_small };
+            for p in wide {
                 for mk in [
                     Op::Ich as fn(P) -> Op,
                     Op::Cuu,
@@ -613,7 +617,7 @@ pub fn c01(c: &Collector, g: &mut Guard) {
     c.bound("word_cube_length", json!(n0));
     c.bound("byte_cube_length", json!(nb));
     c.bound("api_sequence_depth", json!(depth));
-    c.bound("wide_parameter_domain", json!(if thorough { "{absent} U 0..=9999" } else { "{absent} U 0..=64 U {80,81,131,132,133,255,256,1000,4999,9998,9999}" }));
+    c.bound("wide_parameter_domain", json!(if thorough { "{absent} U 0..=9999 on geometries up to 5x3; boundary set on 80x24" } else { "{absent} U 0..=64 U {80,81,131,132,133,255,256,1000,4999,9998,9999}" }));
     c.bound("follow_up", json!(esc(&format!("{}\x1bcx", FLUSH))));
     c.sample(json!({"case": "chars 5x3 utf8", "input": esc("\x1b[3K"), "then": ["display()", esc(FLUSH), esc("\x1bcx"), "display()", "cell(0,0)=='x'"]}));
     c.sample(json!({"case": "bytes 1x1 utf8", "chunks": ["e2 9e", "9c"], "then": "display() after every chunk, follow-up as above"}));
